@@ -74,6 +74,14 @@ def listed_specs(mode):
         if mode == "T":
             out.append(("any", q))
     out += [("all", ("all", ("inst", ("int",)))), ("setof", ("all", ("ff",))), ("all", ("setof", ("tt",)))]
+    # equality with constants that are tuples: hashable ones, and ones that hold a list / dict (a tuple is always an instance of
+    # Hashable; whether it can go into a set depends on what it holds)
+    for c in ((1, 2), ([1, 2], "x"), (1, {"a": 1}), ((), ([],))):
+        out.append(("eq", c))
+        out.append(("all", ("eq", c)))
+        out.append(("setof", ("eq", c)))
+        if mode == "T":
+            out.append(("any", ("eq", c)))
     if mode == "F":
         out = [s for s in out if G.false_supported(s)]
     return out
